@@ -3,8 +3,11 @@ CONSTANTS N = 3
  Provides = FALSE
  Upper = FALSE
  EmitMode = "all"
+ Siblings = FALSE
+ MinHidden = 0
+ Focus = "all"
  SliceK = 1
  SliceI = 0
 SPECIFICATION SpecGc
-INVARIANTS GcModelSafe GcModelClosed EmitGc
+INVARIANTS GcModelSafe GcSiblingOnly GcModelClosed EmitGc
 CHECK_DEADLOCK FALSE
